@@ -157,4 +157,30 @@ example : (freqPipeline ⟨400, 1, 8, "bottom"⟩ 0 [⟨some 2, some 7, none⟩,
     (fun r => (r.1.n, r.2, r.1.label 0)) = some (2, 5, 401) := by
   decide +kernel
 
+set_option linter.unusedTactic false in
+set_option linter.unreachableTactic false in
+set_option linter.unnecessarySeqFocus false in
+/-- Tie to the source: the expressions returned by `channel_freqs`, `bandwidth`, `max_freq`, `min_freq` and the
+new centre computed by `_freq_slice`, translated symbolically on every run (`Gen/Align.lean`), are the model's
+functions; `_freq_slice` selects `self.channel_freqs[s]` and sets the alignment to `'center'`.  Algebraically
+equal rewrites of the source keep this theorem. -/
+theorem C02_source_formulas :
+    (∀ (B : Band) (i : Int), Gen.Align.labelFormula B.cf B.bw B.n ((alignVal? B.al).getD 0) i = B.label i) ∧
+    (∀ B : Band, Gen.Align.bandwidthFormula B.bw B.n = B.bandwidth) ∧
+    (∀ B : Band, Gen.Align.maxFreqFormula B.cf B.bw B.n = B.maxFreq) ∧
+    (∀ B : Band, Gen.Align.minFreqFormula B.cf B.bw B.n = B.minFreq) ∧
+    (∀ f0 f1 : Rat, Gen.Align.sliceCentreFormula f0 f1 = (f0 + f1) / 2) ∧
+    Gen.Align.sliceAlign = some "center" ∧ Gen.Align.sliceSelection = "self.channel_freqs[s]" := by
+  refine ⟨?_, ?_, ?_, ?_, ?_, by decide, by decide⟩
+  · intro B i
+    simp only [Gen.Align.labelFormula, Band.label] <;> first | rfl | ring1
+  · intro B
+    simp only [Gen.Align.bandwidthFormula, Band.bandwidth] <;> first | rfl | ring1
+  · intro B
+    simp only [Gen.Align.maxFreqFormula, Band.maxFreq] <;> first | rfl | ring1
+  · intro B
+    simp only [Gen.Align.minFreqFormula, Band.minFreq] <;> first | rfl | ring1
+  · intro f0 f1
+    simp only [Gen.Align.sliceCentreFormula] <;> first | rfl | ring1
+
 end Pb.C02
